@@ -20,6 +20,7 @@ import (
 	"math/bits"
 	"os"
 	"path/filepath"
+	"sort"
 	"strconv"
 	"strings"
 	"testing"
@@ -1402,5 +1403,168 @@ func TestVerifC16Graph(t *testing.T) {
 	root := zzverif.NewRng(zzverif.Seed() ^ 0x6AF)
 	for k := 0; k < target; k++ {
 		vgRun(out, dir, vgGen(root.Fork()))
+	}
+}
+
+// ---------------------------------------------------------------------------------------------
+// llm.projectorMemoryRequirements (llm/memory.go) and GGML.VisionGraphSize (fs/ggml/ggml.go): the projector / vision
+// figures the estimator adds to GPU 0 (gpuZeroOverhead)
+//
+//   L1: the REAL functions on synthetic files (clip / mllama projector files, models with vision keys of mllama, gemma3,
+//       mistral3 and other architectures, patch size 0, class embedding, huge image sizes so that the products wrap)
+//       == oracle `c16proj` / `c16vision` (models `projReq`, `visionGraphSize`).
+
+type vvCfg struct {
+	Kind    string            `json:"kind"` // "vision"
+	Arch    string            `json:"arch"`
+	U32     map[string]uint32 `json:"u32"`
+	Tensors []vcTensor        `json:"t"`
+}
+
+func vvRun(out *zzverif.Out, dir string, cfg *vvCfg) {
+	js, _ := json.Marshal(cfg)
+	caseLine := string(js)
+	p, err := vcWriteFile(dir, "v.gguf", vcFile{Arch: cfg.Arch, U32: cfg.U32, Vocab: 1, Tensors: cfg.Tensors})
+	if err != nil {
+		panic(err)
+	}
+	f, err := LoadModel(p, 0)
+	if err != nil {
+		panic(err)
+	}
+	kv := f.KV()
+	a := kv.Architecture()
+	u := func(key string) uint64 {
+		v, _ := kv[a+".vision."+key].(uint32)
+		return uint64(v)
+	}
+	b := func(x bool) int {
+		if x {
+			return 1
+		}
+		return 0
+	}
+	layers := f.Tensors().GroupLayers()
+	_, class := layers["v"]["class_embd"]
+	var all, vis []string
+	for name, layer := range layers {
+		for _, t := range layer {
+			all = append(all, strconv.FormatUint(t.Size(), 10))
+			if name == "v" || strings.HasPrefix(name, "v.") {
+				vis = append(vis, strconv.FormatUint(t.Size(), 10))
+			}
+		}
+	}
+	sort.Strings(all) // Go map order is random; the uint64 sum does not depend on it
+	sort.Strings(vis)
+	tail := fmt.Sprintf("%d %d %d %d %d %d %d", u("image_size"), u("patch_size"), u("num_channels"), u("max_num_tiles"), u("embedding_length"), u("attention.head_count"), b(class))
+	list := func(l []string) string {
+		if len(l) == 0 {
+			return "0"
+		}
+		return fmt.Sprintf("%d %s", len(l), strings.Join(l, " "))
+	}
+	// ---- projectorMemoryRequirements(path)
+	impl := ""
+	func() {
+		defer func() {
+			if x := recover(); x != nil {
+				impl = "panic"
+			}
+		}()
+		w, g := projectorMemoryRequirements(p)
+		impl = fmt.Sprintf("w=%d g=%d", w, g)
+	}()
+	out.Case(fmt.Sprintf("c16proj %d %s %s", b(a == "mllama"), list(all), tail), impl)
+	out.Count("vision_cases")
+	out.Count("vision_arch_" + a)
+	if impl == "panic" {
+		out.Count("vision_proj_panic_patch0")
+		if !(a == "mllama" && u("patch_size") == 0) {
+			out.L2("panic", caseLine, "projectorMemoryRequirements panicked outside the known division by a zero patch size")
+		}
+	}
+	// ---- f.VisionGraphSize()
+	impl2 := ""
+	func() {
+		defer func() {
+			if x := recover(); x != nil {
+				impl2 = "panic:" + strings.ReplaceAll(fmt.Sprint(x), "\n", " ")
+			}
+		}()
+		w, g := f.VisionGraphSize()
+		impl2 = fmt.Sprintf("w=%d g=%d", w, g)
+	}()
+	out.Case(fmt.Sprintf("c16vision %d %d %d %s %s", b(a == "mllama"), b(a == "gemma3" || a == "mistral3"), kv.Uint("vision.block_count"), list(vis), tail), impl2)
+	if strings.HasPrefix(impl2, "panic:") {
+		out.L2("panic", caseLine, "VisionGraphSize: "+impl2)
+	}
+	if kv.Uint("vision.block_count") > 0 {
+		out.Count("vision_with_blocks")
+		if u("patch_size") == 0 {
+			out.Count("vision_patch0")
+		}
+	}
+	if class {
+		out.Count("vision_class_embd")
+	}
+}
+
+func vvGen(r *zzverif.Rng) *vvCfg {
+	cfg := &vvCfg{Kind: "vision", Arch: zzverif.Pick(r, []string{"clip", "mllama", "mllama", "gemma3", "mistral3", "llama"}), U32: map[string]uint32{}}
+	if r.Chance(3, 4) {
+		cfg.U32["vision.block_count"] = uint32(r.Range(0, 3))
+	}
+	set := func(key string, vals []int) {
+		if r.Chance(5, 6) {
+			cfg.U32["vision."+key] = uint32(zzverif.Pick(r, vals))
+		}
+	}
+	set("image_size", []int{0, 14, 224, 448, 560, 896, r.Range(1, 4096), 1 << 30, 1<<32 - 1})
+	set("patch_size", []int{14, 14, 16, 0, 1, r.Range(1, 64)})
+	set("num_channels", []int{3, 3, 1, 0, 1 << 20})
+	set("max_num_tiles", []int{1, 4, 4, 0, 1 << 16})
+	set("embedding_length", []int{1280, 1152, 0, r.Range(1, 8192), 1 << 28})
+	set("attention.head_count", []int{16, 12, 0, r.Range(1, 64), 1 << 24})
+	n := r.Range(0, 4)
+	for i := 0; i < n; i++ {
+		cfg.Tensors = append(cfg.Tensors, vcTensorOf(r, fmt.Sprintf("v.blk.%d.attn_q.weight", i), uint64(1)<<uint(r.Range(4, 24))))
+	}
+	if r.Bool() {
+		cfg.Tensors = append(cfg.Tensors, vcTensorOf(r, "mm.0.weight", uint64(r.Range(4, 1<<20))))
+	}
+	if r.Bool() {
+		cfg.Tensors = append(cfg.Tensors, vcTensorOf(r, "v.class_embd", 4096))
+	}
+	if r.Bool() {
+		cfg.Tensors = append(cfg.Tensors, vcTensorOf(r, "v.patch_embd.weight", uint64(r.Range(4, 1<<16))))
+	}
+	if len(cfg.Tensors) == 0 || r.Bool() {
+		cfg.Tensors = append(cfg.Tensors, vcTensorOf(r, "blk.0.attn_q.weight", 64))
+	}
+	return cfg
+}
+
+func TestVerifC16Vision(t *testing.T) {
+	slog.SetDefault(slog.New(slog.NewTextHandler(io.Discard, nil)))
+	out := zzverif.NewOut()
+	defer out.Close()
+	dir := t.TempDir()
+	if rp := os.Getenv("VERIF_REPLAY"); rp != "" {
+		raw, err := os.ReadFile(rp)
+		if err != nil {
+			t.Fatal(err)
+		}
+		var cfg vvCfg
+		if err := json.Unmarshal(bytes.TrimSpace(raw), &cfg); err != nil || cfg.Kind != "vision" {
+			t.Fatalf("replay case is not a C16 projector/vision configuration: %v", err)
+		}
+		vvRun(out, dir, &cfg)
+		return
+	}
+	target := zzverif.EnvInt("VERIF_N", 1500)
+	root := zzverif.NewRng(zzverif.Seed() ^ 0x7151)
+	for k := 0; k < target; k++ {
+		vvRun(out, dir, vvGen(root.Fork()))
 	}
 }
